@@ -257,6 +257,10 @@ func (b *BlockList) readBlocklists() error {
 		return nil
 	}
 
+	// firstErr is the first per-file failure; it is reported once the whole
+	// directory has been walked.
+	var firstErr error
+
 	err := filepath.Walk(b.cfg.BlockListDir, func(path string, f os.FileInfo, walkErr error) error {
 		// When Walk reports an error (unreadable dir, concurrent
 		// removal, permission flip), f may be nil. Log and skip
@@ -276,18 +280,31 @@ func (b *BlockList) readBlocklists() error {
 			if strings.HasPrefix(f.Name(), persistTempPrefix) {
 				return nil
 			}
+			// One list that cannot be opened or read to its end is that
+			// list's failure, not the directory's: the walk goes on to the
+			// files behind it. Stopping here left every later file — the
+			// persisted "local" list among them — unloaded, and the next
+			// API mutation then saved that emptied memory over it.
 			file, err := os.Open(path) //nolint:gosec // G304 - path from walk, not user input
 			if err != nil {
-				return fmt.Errorf("error opening file: %w", err)
+				zlog.Warn("Skipping blocklist file", "path", path, "error", err.Error())
+				if firstErr == nil {
+					firstErr = fmt.Errorf("error opening file: %w", err)
+				}
+				return nil
 			}
 
 			if err = b.parseHostFile(file); err != nil {
-				_ = file.Close()
-				return fmt.Errorf("error parsing hostfile: %w", err)
+				zlog.Warn("Blocklist file not read to its end", "path", path, "error", err.Error())
+				if firstErr == nil {
+					firstErr = fmt.Errorf("error parsing hostfile: %w", err)
+				}
 			}
 
 			_ = file.Close()
 
+			// A download is consumed by the read, parsed to the end or
+			// not; one that stays is read again on every start.
 			if filepath.Ext(path) == ".tmp" {
 				_ = os.Remove(path) //nolint:gosec // G122 - trusted local temp files, not user-controlled symlinks
 			}
@@ -302,7 +319,7 @@ func (b *BlockList) readBlocklists() error {
 
 	zlog.Info("Blocked domains loaded", "total", b.Length())
 
-	return nil
+	return firstErr
 }
 
 func (b *BlockList) parseHostFile(file *os.File) error {
